@@ -1,5 +1,4 @@
 import json
-from json.decoder import JSONDecodeError
 from typing import Union
 
 from .base64url_to_bytes import base64url_to_bytes
@@ -16,7 +15,7 @@ def parse_client_data_json(val: bytes) -> CollectedClientData:
 
     try:
         json_dict = json.loads(val)
-    except JSONDecodeError:
+    except ValueError:  # JSONDecodeError, or the int digit limit on huge literals
         raise InvalidJSONStructure("Unable to decode client_data_json bytes as JSON")
 
     # Ensure required values are present in client data
